@@ -10,8 +10,8 @@ for p in props:
         c=src['checks'][pid]
         checks.append({
             "property_id": pid,
-            "quick_cmd": f"bin/gosym check {pid} --tier quick",
-            "thorough_cmd": f"bin/gosym check {pid} --tier thorough",
+            "quick_cmd": f"bin/gosym check {pid} --tier quick" + c.get('args',''),
+            "thorough_cmd": f"bin/gosym check {pid} --tier thorough" + c.get('args',''),
             "evidence_file": f"/verif/evidence/{pid}.json",
             "replay_cmd_template": "bin/gosym replay {path}",
             "engine": "gosym",
